@@ -185,6 +185,10 @@ pub fn for_property(prop: &str, tier: Tier) -> Vec<(SysCfg, RunOpts)> {
                 s.pairs(&counter_kinds(), &[4, 5], &m, &m, &d, &complete2());
             }
             s.triples(&main_kinds, &[3, 4], &menu(&["N,N", "C2,N", "B2x2", "I", "DN"]), &d, &bounded(b3));
+            // a wrapped iterator that yields again after None: the concurrent iterator must stop where a sequential use stops
+            let nf = menu(&["DN", "DC2", "DB2", "C2,N", "C3,DI", "B2x2", "B3x1,N", "N,N", "FE2", "DC3"]);
+            s.pairs(&[K::IterNonFused], &l03, &nf, &nf, &d, &complete2());
+            s.triples(&[K::IterNonFused], &[1, 2], &menu(&["DC2", "C2,N", "DB2", "N,N"]), &d, &bounded(b3));
             if !q {
                 s.quads(&counter_kinds(), &[4, 6], &menu(&["N,N", "C2,N", "B2x2:1f", "I,C3", "DN", "W"]), &d, &complete2());
             }
